@@ -279,6 +279,14 @@ def witness(ctx, k):
                   '<xsd:sequence><xsd:element ref="x:g"/></xsd:sequence></xsd:complexType></xsd:element>')
         c = wsdlkit.client(wsdlkit.wsdl_doc(schema, input="E"), nosend=True)
         return b"nil" not in wsdlkit.envelope_bytes(c.service.f(None))
+    if kind == "anonymous-optional":
+        inner = ('<xsd:sequence><xsd:element name="req" type="xsd:string" nillable="true"/><xsd:element name="r2" '
+                 'type="xsd:string"/></xsd:sequence>')
+        schema = ('<xsd:element name="E"><xsd:complexType><xsd:sequence><xsd:element name="opt" minOccurs="0">'
+                  '<xsd:complexType>%s</xsd:complexType></xsd:element></xsd:sequence></xsd:complexType></xsd:element>'
+                  % inner)
+        c = wsdlkit.client(wsdlkit.wsdl_doc(schema, input="E"), nosend=True)
+        return b"nil" not in wsdlkit.envelope_bytes(c.service.f({"req": None, "r2": "x"}))
     if kind == "block-form":
         extra = ('<xsd:schema targetNamespace="%s" elementFormDefault="qualified"><xsd:complexType name="T2">'
                  '<xsd:sequence><xsd:element name="m" type="xsd:int"/></xsd:sequence></xsd:complexType>'
